@@ -27,8 +27,15 @@ def one_case(ctx, g, rng, length):
     head = [31, opt(size), opt(init), list(contents)]
     ir = g.IR()
     sec = g.Section(name="s", module=g.Module(name="m", ir=ir))
+    # the caller's buffer: immutable bytes, or a bytearray the caller keeps (and may hand to a second interval, or edit later)
+    form = rng.choice(["bytes", "bytes", "bytearray", "bytearray-shared", "bytearray-edited"])
+    ctx.count("ctor_contents:" + form)
+    buf = contents if form == "bytes" else bytearray(contents)
+    twin = None
     try:
-        bi = g.ByteInterval(address=addr, size=size, initialized_size=init, contents=contents, section=sec)
+        bi = g.ByteInterval(address=addr, size=size, initialized_size=init, contents=buf, section=sec)
+        if form == "bytearray-shared":
+            twin = g.ByteInterval(size=n, contents=buf, section=g.Section(name="t", module=next(iter(ir.modules))))
     except Exception as e:  # noqa: BLE001
         esz = n if size is None else size
         ein = n if init is None else init
@@ -50,6 +57,9 @@ def one_case(ctx, g, rng, length):
 
     def observe():
         nonlocal beyond
+        if twin is not None and (bytes(twin.contents) != contents or twin.size != n or twin.initialized_size != n):
+            problems.append("a second interval constructed from the same caller buffer changed with the first: size %d, bytes %r (were %d, %r)"
+                            % (twin.size, bytes(twin.contents), n, contents))
         c = bytes(bi.contents)
         if len(c) <= bi.size:
             beyond = False          # back inside the invariant (e.g. a later size assignment truncated)
@@ -90,7 +100,7 @@ def one_case(ctx, g, rng, length):
             problems.append("save/load of the interval's IR raised %s: %s" % (exc_name(g, e), str(e)[:80]))
             items.append([14]); impl.append([-1, CODE_OF_ERR.get(exc_name(g, e), 999)])
             return
-        bi2 = next(iter(next(iter(next(iter(ir2.modules)).sections)).byte_intervals))
+        bi2 = ir2.get_by_uuid(bi.uuid)
         items.append([14]); impl.append([0, bi2.size, list(bytes(bi2.contents))])
         if bi2.size != bi.size or bytes(bi2.contents) != bytes(bi.contents) or bi2.initialized_size != bi.initialized_size:
             problems.append("after save/load size/contents are %d/%r, were %d/%r" % (bi2.size, bytes(bi2.contents), bi.size, bytes(bi.contents)))
@@ -98,6 +108,15 @@ def one_case(ctx, g, rng, length):
 
     beyond = False
     observe()
+    if form == "bytearray-edited":
+        # the caller goes on using its own buffer: the interval must have its own copy
+        before = bytes(bi.contents)
+        buf.extend(b"\xaa\xbb")
+        if n:
+            buf[0] ^= 0xff
+        if bytes(bi.contents) != before:
+            problems.append("editing the caller's bytearray after construction changed the interval's bytes to %r" % bytes(bi.contents))
+        observe()
     for _ in range(length):
         if problems:
             break
